@@ -98,6 +98,35 @@ def trace_correspondence(ctx, cases):
     else:
         ctx.log(f'coord trace replay: {len(reqs)} traces ({ev_total} events) accepted by the model')
     ctx.steps.setdefault('correspond', []).append({k: v for k, v in res.items() if k != 'disagreements'})
+    skeleton_correspondence(ctx, reqs, impl)
+    return res
+
+
+def skeleton_correspondence(ctx, reqs, impl):
+    """slice CoordSkel: the same traces through `drv_cskel`, which replays every event through BOTH the hand model
+    `Coord.step` and the interpreter of the loop skeleton regenerated from processing_loop (`Gen.Coord.SKEL`); a reply
+    `models-disagree k …` means the two models part at event k, `not-enabled k` that both refuse it."""
+    reqs2 = ['cskel' + r[len('coord'):] for r in reqs]
+    rc, out, err, w = core.run([core.DRV], input=('\n'.join(reqs2) + '\n').encode(), timeout=600)
+    model = out.decode(errors='replace').splitlines()
+    res = {'component': 'cskel', 'cases': len(reqs2), 'disagreements': [], 'distinct': len(set(reqs2)), 'model_wall_s': round(w, 1)}
+    if rc != 0 or len(model) != len(reqs2):
+        ctx.broken.append({'kind': 'correspondence', 'name': 'cskel', 'detail': f'driver rc={rc} replies={len(model)} of {len(reqs2)}'})
+        return res
+    bad = [{'request': r[:3000], 'impl': i, 'model': m} for r, i, m in zip(reqs2, impl, model) if i != m]
+    res['n_disagreements'] = len(bad)
+    res['disagreements'] = bad[:10]
+    res['distribution'] = {'models_disagree': sum(1 for b in bad if b['model'].startswith('models-disagree')),
+                           'both_refuse': sum(1 for b in bad if b['model'].startswith('not-enabled'))}
+    if bad:
+        d = bad[0]
+        ctx.broken.append({'kind': 'correspondence', 'name': 'cskel (trace replay, hand model + regenerated loop skeleton)',
+                           'detail': f"{len(bad)} trace(s): model={d['model']} expected={d['impl']} request={d['request'][:400]}",
+                           'disagreements': bad[:3]})
+        ctx.log(f'cskel trace replay: {len(bad)} DISAGREEMENTS', d['model'])
+    else:
+        ctx.log(f'cskel trace replay: {len(reqs2)} traces accepted by the hand model and the regenerated skeleton alike')
+    ctx.steps.setdefault('correspond', []).append({k: v for k, v in res.items() if k != 'disagreements'})
     return res
 
 
